@@ -15,8 +15,21 @@ TG = 35e-9
 FACT = {"CNOT": "CNOTFactory", "CNOT_inv": "CNOTInvFactory", "ECR": "ECRFactory", "ECR_inv": "ECRInvFactory"}
 
 
+def schedule_t_cr(gate, t):
+    """duration of each cross-resonance pulse in the documented pulse sequences"""
+    return (t - 3 * TG) / 2 if gate == "CNOT_inv" else t / 2 - TG
+
+
+def derived_pcr(gate, p2, pc, pt):
+    """error of the CR pulses such that the whole sequence has the two-qubit error p2 (fidelities multiply)"""
+    k = 3 if gate == "CNOT_inv" else 1
+    x = (1 - 0.75 * p2) ** 2 / ((1 - 0.75 * pc) ** 2 * (1 - 0.75 * pt) ** k)
+    return (4 / 3) * (1 - x ** 0.25) if x >= 0 else float("nan")
+
+
 def make_args(rng, mode="asym"):
-    a = {"phi_ctr": rng.uniform(0.1, 1.4), "phi_trg": rng.uniform(1.7, 3.0), "t": rng.uniform(6, 20) * TG,
+    a = {"phi_ctr": rng.uniform(0.1, 1.4), "phi_trg": rng.uniform(1.7, 3.0),
+         "t": rng.choice([rng.uniform(6, 20), rng.uniform(3.1, 6)]) * TG,
          "p2": rng.uniform(0.03, 0.12), "pc": rng.uniform(1e-4, 3e-3), "pt": rng.uniform(1e-4, 3e-3),
          "T1c": rng.uniform(2e-6, 300e-6), "T1t": rng.uniform(2e-6, 300e-6)}
     a["T2c"] = rng.uniform(0.3, 2.0) * a["T1c"]; a["T2t"] = rng.uniform(0.3, 2.0) * a["T1t"]
@@ -24,6 +37,11 @@ def make_args(rng, mode="asym"):
         a.update(pt=0.0, T1t=0.0, T2t=0.0, p2=a["pc"])
     if mode == "trg-only":
         a.update(pc=0.0, T1c=0.0, T2c=0.0)
+    if mode == "dephasing-only":                 # relaxation off (T1 = 0) on one or both qubits, pure dephasing on
+        if rng.random() < 0.7:
+            a.update(T1c=0.0, T2c=rng.uniform(5e-6, 200e-6))
+        if rng.random() < 0.7:
+            a.update(T1t=0.0, T2t=rng.uniform(5e-6, 200e-6))
     return a
 
 
@@ -133,6 +151,15 @@ def oracle(gate, a, pulse_desc, seed):
                 bad.append(f"CR pulse was handed (T1,T2,T1,T2)={tuple(c['args'][4:8])}, slot order demands {rec[q0][1:] + rec[q1][1:]}")
     if len({c["args"][3] for c in crs}) > 1:
         bad.append("the CR pulses of one gate were handed different two-qubit errors")
+    want_pcr, want_t = derived_pcr(gate, a["p2"], a["pc"], a["pt"]), schedule_t_cr(gate, a["t"])
+    for c in crs:
+        if want_pcr == want_pcr and not abs(c["args"][3] - want_pcr) <= 1e-12:
+            bad.append(f"a CR pulse was handed the two-qubit error {c['args'][3]!r}, the error derived from (p_2q, p_ctr, p_trg) is {want_pcr!r}")
+            break
+        if not abs(c["args"][2] - want_t) <= 1e-18 + 1e-12 * abs(want_t):
+            bad.append(f"a CR pulse was handed the duration {c['args'][2]!r}, the pulse sequence schedules {want_t!r} "
+                       f"(gate time {a['t']!r})")
+            break
     # the sampled gate is the product of its pulse layers, every sampled pulse entering exactly once (independent pulses)
     if not bad:
         import itertools
@@ -166,7 +193,7 @@ def main(ctx):
     pds = gc.pulse_descs(rng, ctx.thorough)
     for gate in FACT:
         pcr_seen = {}
-        for mode in ("asym", "ctr-only", "trg-only"):
+        for mode in ("asym", "ctr-only", "trg-only", "dephasing-only"):
             for r in range(reps):
                 a = make_args(rng, mode)
                 pd = pds[r % len(pds)]
@@ -183,6 +210,18 @@ def main(ctx):
                     bad.append(f"with the target quiet and p_2q = p_ctr the derived CR error is {pcr}, not 0")
                 if bad:
                     fails.append((gate, a, pd, seed, bad))
+        # the four composites requested with the SAME numbers one after the other in one process (both orders)
+        a = make_args(rng)
+        earlier = []
+        for g2 in (list(FACT) + list(reversed(list(FACT)))):
+            res = oracle(g2, a, pds[0], 7)
+            ctx.count()
+            rec = dict(a, _earlier_gates=list(earlier))
+            if isinstance(res, list):
+                fails.append((g2, rec, pds[0], 7, res))
+            elif res[0]:
+                fails.append((g2, rec, pds[0], 7, [b + " (after the other composite gates had been requested with the same numbers)" for b in res[0]]))
+            earlier.append(g2)
         # the derived error depends on the three probabilities only
         base = make_args(rng)
         vals = set()
@@ -229,6 +268,8 @@ def replay(ctx, path):
     rp = json.load(open(path))["replay"]
     if "gate" not in rp:
         print("replay names a broken obligation:", json.dumps(rp)[:400]); return 1
+    for g in rp["args"].get("_earlier_gates", []):           # the same numbers were requested from these composites first
+        oracle(g, rp["args"], rp["pulse"], rp["seed"])
     res = oracle(rp["gate"], rp["args"], rp["pulse"], rp["seed"])
     bad = res if isinstance(res, list) else res[0]
     print("gate", rp["gate"], "args", rp["args"]); print("oracle:", bad or "holds")
